@@ -153,4 +153,4 @@ def run(ctx):
                 rule='full product shape x widths x case x mu_r x eps_r x s; '
                      'per case the full edge basis through compiled amat_x; '
                      'non-trivial = grid has interior edges',
-                time_cap=ctx.budget or (150 if ctx.quick else 1500))
+                time_cap=ctx.budget or (600 if ctx.quick else 3000))
